@@ -155,20 +155,23 @@ def write_replay(pid, name, obj):
         open(p, 'w').write(obj)
     return p
 
-def coq_check_properties(pid, deps=(), timeout=1500):
+def coq_check_properties(pid, deps=(), timeout=1500, extra=()):
     """Build the dependencies with make, then re-check Properties_<pid>.v itself with coqc (always),
     so that the Print Assumptions output of this very run is captured.
     Returns dict(ok, closed, axioms, log)."""
     target = 'theories/Properties/Properties_%s.vo' % pid
-    ok, log = coq_build([target] + list(deps), timeout)
+    files = ['theories/Properties/Properties_%s.v' % pid] + ['theories/Properties/Properties_%s_%s.v' % (pid, x) for x in extra]
+    ok, log = coq_build([f + 'o' for f in files] + list(deps), timeout)
     res = dict(ok=False, closed=0, axioms=[], log=log)
     if not ok:
         return res
     lock = open(os.path.join(COQ, '.lock'), 'w')
     fcntl.flock(lock, fcntl.LOCK_EX)
     try:
-        rc, out, err = sh(['timeout', str(timeout), 'coqc', '-Q', 'theories', 'Chibicc', '-w', '-deprecated-syntactic-definition,-deprecated',
-                           'theories/Properties/Properties_%s.v' % pid], cwd=COQ, timeout=timeout + 30)
+        rc, out, err = 0, '', ''
+        for f in files:       # the statement files of the property (the original one and one per later package)
+            rc1, out1, err1 = sh(['timeout', str(timeout), 'coqc', '-Q', 'theories', 'Chibicc', '-w', '-deprecated-syntactic-definition,-deprecated', f], cwd=COQ, timeout=timeout + 30)
+            rc = rc or rc1; out += out1; err += err1
     finally:
         fcntl.flock(lock, fcntl.LOCK_UN); lock.close()
     res['log'] = log + out + err
@@ -237,17 +240,17 @@ class Run:
         self.violations.append(v)
         return True
 
-    def check_proofs(self, deps=()):
+    def check_proofs(self, deps=(), extra=()):
         if os.environ.get('VERIF_SKIP_PROOFS'):      # sub-run of the C12 check: the proofs do not depend on the binary under test
             self.cq = dict(ok=True, closed=len(self.theorems), axioms=[], log='skipped (sub-run)'); return True
-        self.cq = coq_check_properties(self.pid, deps=deps)
+        self.cq = coq_check_properties(self.pid, deps=deps, extra=extra)
         if not self.cq['ok']:
             self.proof_broken.append('Properties_%s.v does not check: %s' % (self.pid, coq_errors(self.cq['log']) or self.cq['log'][-600:]))
         return self.cq['ok']
 
     def proof_cov(self):
         return dict(obligations=len(self.theorems), discharged=len(self.theorems) if self.cq['ok'] else 0,
-                    checker_cmd='make -C /verif/coq + coqc theories/Properties/Properties_%s.v (Coq 8.16.1, full .vo build, re-checked on this run)' % self.pid,
+                    checker_cmd='make -C /verif/coq + coqc theories/Properties/Properties_%s*.v (Coq 8.16.1, full .vo build, re-checked on this run)' % self.pid,
                     print_assumptions_closed=self.cq['closed'], axioms=self.cq['axioms'], theorems=self.theorems)
 
     def finish(self, cov, assumptions, trusted_base):
